@@ -65,10 +65,13 @@ def _worker(name):
           continue
         seen.add(key)
         done, fails = harness.run_concrete(c, values=cx['values'], n=1)
-        # the model's input must violate SOME obligation of the case on the real library (the
-        # obligation that fails concretely may be a neighbouring one, e.g. IndexError instead of
-        # a silently returned value)
-        reproduced = bool(fails) and not fails[0].get('rejected') and bool(fails[0].get('names'))
+        names = fails[0].get('names', []) if fails and not fails[0].get('rejected') else []
+        if c.get('lenient_replay'):
+          # (C06: the model's input must violate SOME obligation of the case -- IndexError instead of a silently
+          # returned value is the same malformed input being mishandled)
+          reproduced = bool(names)
+        else:
+          reproduced = cx['name'] in names or (cx['name'].startswith('exception:') and any(n.startswith('exception:') for n in names))
         out['replays'].append({'obligation': cx['name'], 'values': cx['values'],
                                'reproduced': reproduced, 'nice': cx.get('nice'),
                                'goal': cx.get('goal'),
